@@ -17,6 +17,7 @@
 
 #include <cerrno>
 #include <climits>
+#include <cstddef>
 #include <map>
 #include <new>
 #include <sys/wait.h>
@@ -833,9 +834,21 @@ static int low_main(bool thorough, int si, int sn, const char* replay)
 namespace arena
 {
     constexpr std::size_t STORE = 1152; // divisible by 96, 128, 192, 384, 576
-    static fm::static_allocator_storage<STORE> g_store;
-    static fm::static_allocator_storage<192>   g_small_store;
-    static fm::static_allocator_storage<4096>  g_big_store;
+    constexpr std::size_t GUARD = 256;  // untouched bytes the harness keeps before and after every static storage
+    template <std::size_t N>
+    struct guarded
+    {
+        alignas(64) u8 pre[GUARD];
+        fm::static_allocator_storage<N> st;
+        u8 post[GUARD];
+    };
+    static guarded<STORE> g_store_g;
+    static guarded<192>   g_small_store_g;
+    static guarded<4096>  g_big_store_g;
+    static_assert(offsetof(guarded<192>, st) == GUARD && offsetof(guarded<192>, post) == GUARD + 192, "guard layout");
+    static fm::static_allocator_storage<STORE>& g_store       = g_store_g.st;
+    static fm::static_allocator_storage<192>&   g_small_store = g_small_store_g.st;
+    static fm::static_allocator_storage<4096>&  g_big_store   = g_big_store_g.st;
 
     inline u8 pat(std::size_t off)
     {
@@ -893,15 +906,18 @@ namespace arena
                 footprint = sz;
             if (!inside(p, footprint))
             {
-                fail("outside-store", fmt("allocation %p+%zu outside the static storage", mem, footprint), true);
+                fail("outside-storage",
+                     fmt("the allocator returned %zu bytes at storage%+ld, its storage is only %zu bytes (nothing was written by the "
+                         "harness)",
+                         footprint, long(p - base), n));
                 return;
             }
             ++allocs;
             for (std::size_t i = 0; i < footprint; ++i)
                 if (exp[std::size_t(p - base) + i] == 2)
                 {
-                    fail("overlaps-live", fmt("fresh allocation at store offset %zu overlaps a live allocation", std::size_t(p - base)),
-                         true);
+                    fail("overlaps-live",
+                         fmt("fresh allocation of %zu bytes at store offset %zu overlaps a live allocation", sz, std::size_t(p - base)));
                     return;
                 }
                 else
@@ -991,6 +1007,35 @@ namespace arena
         virtual void        destroy()                = 0;
         virtual void        abandon()                = 0; // after a contained abort: forget the object
         virtual int         apply(int op, shadow& s) = 0; // 0 = not applicable in this state, 1 = applied
+        // static storages sit between two guard zones of GUARD bytes (struct guarded)
+        virtual void prepare()
+        {
+            std::memset(store() - GUARD, 0x5A, store_size() + 2 * GUARD);
+        }
+        virtual void setup(shadow&) {} // fixed prologue after construction
+        virtual void check_outside(shadow& s)
+        {
+            u8* b = store();
+            for (std::size_t i = 0; i < GUARD; ++i)
+                if (b[store_size() + i] != 0x5A)
+                {
+                    s.fail("wrote-outside-storage", fmt("byte %zu behind the end of the allocator's %zu byte storage was overwritten with "
+                                                        "0x%02X (nobody but the allocator ran)",
+                                                        i, store_size(), b[store_size() + i]));
+                    return;
+                }
+            for (std::size_t i = 1; i <= GUARD; ++i)
+                if (*(b - i) != 0x5A)
+                {
+                    s.fail("wrote-outside-storage",
+                           fmt("byte %zu before the allocator's storage was overwritten with 0x%02X", i, *(b - i)));
+                    return;
+                }
+        }
+        virtual int depth(bool thorough)
+        {
+            return thorough ? 9 : 6;
+        }
     };
 
     template <class Obj>
@@ -1416,6 +1461,275 @@ namespace arena
         }
     };
 
+
+    //--- nearly exhausted stacks: first operation leaves exactly k bytes, then small requests (sizes 1..3, alignments 1, 8, 16)
+    struct edge_sys : sys
+    {
+        bool        prefilled = false;
+        std::size_t K() const
+        {
+            return 2 * FENCE_CFG + 18;
+        }
+        virtual int         paths()                                             = 0; // request interfaces
+        virtual const char* path_name(int)                                      = 0;
+        virtual std::size_t remaining()                                         = 0;
+        virtual void*       request(int path, std::size_t sz, std::size_t al)   = 0; // nullptr = refused
+        virtual void*       fill(std::size_t sz)                                = 0; // alignment 1, must succeed
+        virtual int         cur_iter()
+        {
+            return 0;
+        }
+        int nops() override
+        {
+            return int(K()) + 9 * paths();
+        }
+        std::string opname(int op) override
+        {
+            if (op < int(K()))
+                return fmt("fill up, leave %d bytes", op);
+            int r = op - int(K());
+            static const std::size_t al[] = {1, 8, 16};
+            return fmt("%s(%d,%zu)", path_name(r / 9), r % 9 / 3 + 1, al[r % 3]);
+        }
+        int depth(bool thorough) override
+        {
+            return thorough ? 4 : 3;
+        }
+        int apply(int op, shadow& s) override
+        {
+            if (op < int(K()))
+            {
+                if (prefilled)
+                    return 0;
+                std::size_t rem = remaining(), k = std::size_t(op);
+                if (rem < k + 2 * FENCE_CFG + 1)
+                    return 0;
+                std::size_t sz = rem - k - 2 * FENCE_CFG;
+                void*       p  = nullptr;
+                try
+                {
+                    p = fill(sz);
+                }
+                catch (std::exception&)
+                {
+                }
+                prefilled = true;
+                if (!p)
+                {
+                    ++s.alloc_failed;
+                    return 1;
+                }
+                s.on_alloc(p, sz, 0, 1, sz, cur_iter());
+                return 1;
+            }
+            int                      r    = op - int(K());
+            static const std::size_t al[] = {1, 8, 16};
+            std::size_t              sz   = std::size_t(r % 9 / 3 + 1);
+            void*                    p    = nullptr;
+            try
+            {
+                p = request(r / 9, sz, al[r % 3]);
+            }
+            catch (std::exception&)
+            {
+            }
+            if (!p)
+            {
+                ++s.alloc_failed;
+                return 1;
+            }
+            s.on_alloc(p, sz, 1, 1, sz, cur_iter());
+            return 1;
+        }
+    };
+
+    struct static_edge_sys : edge_sys
+    {
+        using obj = fm::static_allocator;
+        holder<obj> h;
+        const char* name() override
+        {
+            return "static_allocator (nearly full)";
+        }
+        u8* store() override
+        {
+            return reinterpret_cast<u8*>(&g_small_store);
+        }
+        std::size_t store_size() override
+        {
+            return 192;
+        }
+        int paths() override
+        {
+            return 1;
+        }
+        const char* path_name(int) override
+        {
+            return "allocate_node";
+        }
+        void construct() override
+        {
+            prefilled = false;
+            h.a       = ::new (h.raw) obj(g_small_store);
+        }
+        void destroy() override
+        {
+            h.kill();
+        }
+        void abandon() override
+        {
+            h.a = nullptr;
+        }
+        std::size_t remaining() override
+        {
+            return h.a->max_node_size();
+        }
+        void* request(int, std::size_t sz, std::size_t al) override
+        {
+            return fm::allocator_traits<obj>::allocate_node(*h.a, sz, al);
+        }
+        void* fill(std::size_t sz) override
+        {
+            return fm::allocator_traits<obj>::allocate_node(*h.a, sz, 1);
+        }
+    };
+
+    template <class Upstream>
+    struct stack_edge_sys : edge_sys
+    {
+        using obj = fm::memory_stack<Upstream>;
+        holder<obj> h;
+        static constexpr bool is_vm = std::is_same<Upstream, fm::virtual_memory_allocator>::value;
+        const char* name() override
+        {
+            return is_vm ? "memory_stack<virtual_memory_allocator> (nearly full)" : "memory_stack (nearly full)";
+        }
+        u8* store() override
+        {
+            return is_vm ? static_cast<u8*>(h.a->arena_.current_block().memory) : reinterpret_cast<u8*>(&g_store);
+        }
+        std::size_t store_size() override
+        {
+            return is_vm ? h.a->arena_.current_block().size : STORE;
+        }
+        void prepare() override
+        {
+            if (!is_vm)
+                edge_sys::prepare();
+        }
+        void check_outside(shadow& s) override
+        {
+            // over the low-level allocator the bytes behind the block are its fence: the library's own check on release
+            // (counting buffer overflow handler) is the observer
+            if (!is_vm)
+                edge_sys::check_outside(s);
+        }
+        int paths() override
+        {
+            return is_vm ? 1 : 2; // over virtual memory only the non-growing interface (one block = the shadow map)
+        }
+        const char* path_name(int p) override
+        {
+            return p == 0 ? "try_allocate" : "allocate";
+        }
+        void construct() override
+        {
+            prefilled = false;
+            construct_impl(std::integral_constant<bool, is_vm>());
+        }
+        void construct_impl(std::true_type)
+        {
+            h.a = ::new (h.raw) obj(std::size_t(256));
+        }
+        void construct_impl(std::false_type)
+        {
+            h.a = ::new (h.raw) obj(std::size_t(128), g_store);
+        }
+        void destroy() override
+        {
+            h.kill();
+        }
+        void abandon() override
+        {
+            h.a = nullptr;
+        }
+        std::size_t remaining() override
+        {
+            return h.a->capacity_left();
+        }
+        void* request(int path, std::size_t sz, std::size_t al) override
+        {
+            return path == 0 ? h.a->try_allocate(sz, al) : h.a->allocate(sz, al);
+        }
+        void* fill(std::size_t sz) override
+        {
+            return h.a->allocate(sz, 1);
+        }
+    };
+
+    struct iter_edge_sys : edge_sys
+    {
+        using obj = fm::iteration_allocator<2, fm::static_block_allocator>;
+        holder<obj> h;
+        const char* name() override
+        {
+            return "iteration_allocator (nearly full, other iteration live)";
+        }
+        u8* store() override
+        {
+            return reinterpret_cast<u8*>(&g_store);
+        }
+        std::size_t store_size() override
+        {
+            return STORE;
+        }
+        int paths() override
+        {
+            return 2;
+        }
+        const char* path_name(int p) override
+        {
+            return p == 0 ? "try_allocate" : "allocate";
+        }
+        void construct() override
+        {
+            prefilled = false;
+            h.a       = ::new (h.raw) obj(std::size_t(384), g_store);
+        }
+        // the second half of the block holds a live allocation, the walk then fills the first half
+        void setup(shadow& s) override
+        {
+            h.a->next_iteration();
+            void* p = h.a->allocate(24, 8);
+            s.on_alloc(p, 24, 0, 1, 24, 1);
+            h.a->next_iteration();
+        }
+        void destroy() override
+        {
+            h.kill();
+        }
+        void abandon() override
+        {
+            h.a = nullptr;
+        }
+        int cur_iter() override
+        {
+            return int(h.a->cur_iteration());
+        }
+        std::size_t remaining() override
+        {
+            return h.a->capacity_left();
+        }
+        void* request(int path, std::size_t sz, std::size_t al) override
+        {
+            return path == 0 ? h.a->try_allocate(sz, al) : h.a->allocate(sz, al);
+        }
+        void* fill(std::size_t sz) override
+        {
+            return h.a->allocate(sz, 1);
+        }
+    };
+
     static sys* make(const std::string& kind)
     {
         const std::size_t L = sizeof(void*);
@@ -1431,6 +1745,14 @@ namespace arena
             return new iter_sys;
         if (kind == "static")
             return new static_sys;
+        if (kind == "static_edge")
+            return new static_edge_sys;
+        if (kind == "stack_edge")
+            return new stack_edge_sys<fm::static_block_allocator>;
+        if (kind == "stack_vm_edge")
+            return new stack_edge_sys<fm::virtual_memory_allocator>;
+        if (kind == "iter_edge")
+            return new iter_edge_sys;
         if (kind == "coll_node_id")
             return new coll_sys<fm::node_pool, fm::identity_buckets>("memory_pool_collection<node_pool,identity>", 24, 1024, 16, 24, L);
         if (kind == "coll_array_log2")
@@ -1455,13 +1777,16 @@ namespace arena
         // replays seq from scratch on a fresh allocator; 0 = last op not applicable, 1 = evaluated, -1 = contained failure
         int replay(bool verbose, int* outcome)
         {
-            std::memset(s->store(), 0x5A, s->store_size());
-            sh.reset(s->store(), s->store_size());
+            s->prepare();
+            sh.reset(nullptr, 0);
+            g_nrep          = 0;
             volatile int rc = 1;
             int          o;
             ++replays;
             VERIF_GUARDED(o, {
                 s->construct();
+                sh.reset(s->store(), s->store_size());
+                s->setup(sh);
                 for (std::size_t i = 0; i < seq.size(); ++i)
                 {
                     sh.report = i + 1 == seq.size();
@@ -1478,7 +1803,10 @@ namespace arena
                     }
                 }
                 if (rc)
+                {
                     sh.check_all();
+                    s->check_outside(sh);
+                }
                 s->destroy();
             });
             *outcome = o;
@@ -1487,6 +1815,12 @@ namespace arena
                 s->abandon();
                 return -1;
             }
+            // the harness wrote only into memory it was given: the library's fence check must stay silent
+            if (rc && g_nrep != 0)
+                sh.fail("spurious-report",
+                        fmt("%d buffer overflow report(s) (first: block of %zu bytes, write_ptr block%+ld) although the harness only wrote "
+                            "inside its allocations",
+                            g_nrep, g_rep[0].size, long(static_cast<const u8*>(g_rep[0].ptr) - static_cast<const u8*>(g_rep[0].mem))));
             return rc;
         }
 
@@ -1621,7 +1955,7 @@ static int arena_main(const std::string& kind, bool thorough, const char* replay
                     w.sh.freed_bytes, w.sh.live_bytes);
         return 0;
     }
-    w.depth = thorough ? 9 : 6;
+    w.depth = w.s->depth(thorough);
     w.walk();
     R.extra["depth"]            = w.depth;
     R.extra["alphabet"]         = w.s->nops();
